@@ -464,6 +464,15 @@ def run(rep, tier):
     h1 = clause_h(f1, rep)
     h3 = clause_h(f3, rep)
     rep.require(h1 >= 1 and h3 >= 1, 'C15.h: unsigned vector relational operators found: avx2 %d, sse %d' % (h1, h3))
+    # the string skipper runs with 16- and 32-byte blocks: the hand-over of the escape carry to the scalar tail and the
+    # escape bit trick must be right for each block width, or the kernels disagree on where a literal ends (shared with C10)
+    from . import c10
+    c10.clause_escape_carry(f1, rep, ('::avx2::',))
+    c10.clause_escape_carry(f3, rep, ('::sse::',))
+    c10.clause_escape_flag(f1, rep, ('::avx2::',))
+    c10.clause_escape_flag(f3, rep, ('::sse::',))
+    c10.clause_escaped_bits(f1, rep, tier)
+    c10.clause_escaped_bits(f3, rep, tier)
     rep.trust('clang 14 front end', 'Intel semantics of the SSE compare / movemask intrinsics', 'simd wrapper contracts (== and unsigned <= followed by to_bitmask)')
     rep.assumptions += [
         'decides structural parity of the three x86 configurations; in the thorough tier every other property re-runs its rules on K3 (static SSE) and K4 (dynamic dispatch)',
